@@ -1992,3 +1992,82 @@ Proof.
   destruct (pq_loop (length F) elems (Node KP (map Leaf F))) as [t|e]; [|right; now subst].
   destruct t as [s|k cs]; [simpl in Hloop; lia|]. left. eauto.
 Qed.
+
+(* ------------------------------------------------------------------------------------------------ *)
+(* chaining down: the mirrored solver and recognisers on top of the mirrored PQ-tree *)
+From PrefVerif Require Import Model.Approval Proofs.Approval.
+
+(* reorder_sets as a function of the family alone: elems_of F = the order in which the elements are visited *)
+Definition pq_reorder_fn (elems_of : list (list nat) -> list nat) (F : list (list nat)) : option (list (list nat)) :=
+  match pq_reorder (elems_of F) F with Ok res => Some res | Err _ => None end.
+
+Section MirrorChain.
+Variable elems_of : list (list nat) -> list nat.
+Hypothesis elems_cover : forall F, incl (concat F) (elems_of F).
+
+(* first half of reorder_contract, now a theorem about the mirror *)
+Theorem pq_reorder_fn_sound F res : pq_reorder_fn elems_of F = Some res -> SetsOK F res.
+Proof.
+  unfold pq_reorder_fn. destruct (pq_reorder (elems_of F) F) as [r|e] eqn:E; [|discriminate].
+  intros [= <-]. apply (pq_reorder_sound (elems_of F)); [apply elems_cover|exact E].
+Qed.
+
+(* every True answer of the mirrored solve_consecutive_ones carries a valid column order (any matrix) *)
+Theorem pq_solve_sound rows nc perm :
+  solve_model (pq_reorder_fn elems_of) rows nc = Some perm -> c1p_check rows nc perm = true.
+Proof.
+  unfold solve_model. destruct (group_cols_spec rows nc) as [Hfam Hget].
+  destruct (pq_reorder_fn elems_of (map fst (group_cols rows nc))) as [res|] eqn:E; [|discriminate].
+  intros [= <-]. rewrite (flat_map_ext_in _ (cols_of rows nc)) by (intros k _; apply Hget).
+  apply (family_witness rows nc _ res Hfam). now apply pq_reorder_fn_sound.
+Qed.
+
+(* every True answer of the mirrored isC1P is right *)
+Theorem pq_isC1P_sound rows nc :
+  isC1P_model (pq_reorder_fn elems_of) rows nc = true -> c1p_decide rows nc = true.
+Proof.
+  unfold isC1P_model. pose proof (dedup_sets_family rows nc) as Hfam.
+  destruct (pq_reorder_fn elems_of (dedup_sets (map (col_set rows) (seq 0 nc)))) as [res|] eqn:E; [|discriminate].
+  intros _. apply (c1p_check_decide rows nc (flat_map (cols_of rows nc) res)).
+  apply (family_witness rows nc _ res Hfam). now apply pq_reorder_fn_sound.
+Qed.
+
+(* the witnesses of the six recognisers built on the mirrored solver are valid *)
+Let solve := solve_model (pq_reorder_fn elems_of).
+
+Theorem pq_ci_sound alts ballots order :
+  is_candidate_interval solve alts ballots = Some order -> ci_check alts ballots order = true.
+Proof.
+  unfold is_candidate_interval. destruct (solve (ci_matrix alts ballots) (length alts)) as [perm|] eqn:E; [|discriminate].
+  intros [= <-]. apply ci_witness. now apply pq_solve_sound.
+Qed.
+
+Theorem pq_cei_sound alts ballots order :
+  is_candidate_extremal_interval solve alts ballots = Some order -> cei_check alts ballots order = true.
+Proof.
+  unfold is_candidate_extremal_interval.
+  destruct (solve (cei_matrix alts ballots) (length alts)) as [perm|] eqn:E; [|discriminate].
+  intros [= <-]. apply pq_solve_sound, cei_witness in E. destruct E as [-> E]. exact E.
+Qed.
+
+Theorem pq_vi_sound alts ballots border :
+  is_voter_interval solve alts ballots = Some border -> vi_check alts ballots border = true.
+Proof. unfold is_voter_interval. intros E. apply pq_solve_sound in E. now rewrite vi_check_c1p. Qed.
+
+Theorem pq_vei_sound alts ballots border :
+  is_voter_extremal_interval solve alts ballots = Some border -> vei_check alts ballots border = true.
+Proof. unfold is_voter_extremal_interval. intros E. apply pq_solve_sound in E. now apply vei_check_c1p. Qed.
+
+Theorem pq_wsc_sound alts ballots border :
+  is_weakly_single_crossing solve alts ballots = Some border -> wsc_check alts ballots border = true.
+Proof. unfold is_weakly_single_crossing. intros E. apply pq_solve_sound in E. now apply wsc_check_c1p. Qed.
+
+Theorem pq_de_sound alts ballots w :
+  Forall (fun b => incl b alts) ballots ->
+  is_dichotomous_euclidean solve alts ballots = Some w -> de_check alts ballots (fst w) (snd w) = true.
+Proof.
+  intros Hwf. unfold is_dichotomous_euclidean.
+  destruct (is_candidate_interval solve alts ballots) as [order|] eqn:E; [|discriminate].
+  intros [= <-]. apply de_construct_accepted; [exact Hwf|]. now apply pq_ci_sound.
+Qed.
+End MirrorChain.
